@@ -59,6 +59,7 @@ package moq
 //@   ensures success: forallEv(i, evIs(i, "golang.org/x/tools/imports.Process") && evRes(i, 1) == nil ==> err == nil && out == evRes(i, 0))
 
 //@ define wfK(r) = r.imports != nil && forall(string(k), dom(r.imports, k) ==> r.imports[k] != nil && r.imports[k].pkg != nil && uf("registry.stripVendorPath", String, r.imports[k].pkg.Path()) == k && k != r.moqPkgPath)
+//@ define varsNonNil(m) = forall(k, 0 <= k && k < len(m.vars) ==> m.vars[k] != nil)
 //@ define ifaceNameOf(np) = uf("moq.parseInterfaceName#0", String, np)
 //@ define mockNameOf(np) = uf("moq.parseInterfaceName#1", String, np)
 
@@ -105,10 +106,12 @@ package moq
 //@   requires m != nil && m.registry != nil && f != nil && isType(f.Type(), *types.Signature) && wfK(m.registry)
 //@   ensures wf-kept: wfK(m.registry)
 //@   loop 1 invariant wf: wfK(m.registry)
+//@   loop 1 invariant scope-ok: scope != nil && scope.registry == m.registry && scope.conflicted != nil && varsNonNil(scope)
 //@   loop 1 invariant idx: i >= 0
 //@   loop 1 invariant params-so-far: forall(k, 0 <= k && k < i ==> allocated(params[k].Var) && params[k].Var.vr == sigOf(f).Params().At(k))
 //@   loop 1 invariant variadic-so-far: forall(k, 0 <= k && k < i ==> (params[k].Variadic ==> sigOf(f).Variadic() && k == sigOf(f).Params().Len() - 1))
 //@   loop 2 invariant wf: wfK(m.registry)
+//@   loop 2 invariant scope-ok: scope != nil && scope.registry == m.registry && scope.conflicted != nil && varsNonNil(scope)
 //@   loop 2 invariant idx: i >= 0
 //@   loop 2 invariant results-so-far: forall(k, 0 <= k && k < i ==> allocated(results[k].Var) && results[k].Var.vr == sigOf(f).Results().At(k) && !results[k].Variadic)
 //@   loop 2 invariant params-kept: forall(k, 0 <= k && k < len(params) ==> allocated(params[k].Var) && params[k].Var.vr == sigOf(f).Params().At(k))
@@ -126,6 +129,7 @@ package moq
 //@   requires m != nil && m.registry != nil && wfK(m.registry)
 //@   ensures wf-kept: wfK(m.registry)
 //@   loop 1 invariant wf: wfK(m.registry)
+//@   loop 1 invariant scope-ok: scope != nil && scope.registry == m.registry && scope.conflicted != nil && varsNonNil(scope)
 //@   loop 1 invariant idx: i >= 0
 //@   loop 1 invariant so-far: forall(k, 0 <= k && k < i ==> allocated(tpd[k].Var) && tpd[k].Var.vr.Name() == tparams.At(k).Obj().Name() && tpd[k].Var.vr.Type() == tparams.At(k).Constraint())
 //@   ensures none: tparams == nil ==> len(tpd) == 0
